@@ -160,13 +160,23 @@ pub fn gen_c04(tier: Tier, seed: u64) -> Case {
         Tier::Thorough => g.r.range(6, 60),
     } as usize;
     let mut program = g.create_initial(n_names);
+    // one history in sixteen starts with a dozen journal files on disk
+    let many = n_names >= 2 && cls != 2 && g.r.chance(1, 16);
+    if many {
+        let pre = g.many_journals(0, 1);
+        program.extend(pre);
+    }
     program.extend(g.program(n_ops, &mix));
     program.push(Op::Reopen);
-    if g.r.chance(1, 2) {
+    if many || g.r.chance(1, 2) {
         program.extend(g.program(5, &mix));
+        if many {
+            let v = g.val();
+            program.push(Op::Insert { ks: 1, key: g.key(), val: v });
+        }
         program.push(Op::Reopen);
     }
-    let class = ["ingest-heavy", "clear-heavy", "ks-lifecycle", "mixed"][cls as usize].to_string();
+    let class = format!("{}{}", ["ingest-heavy", "clear-heavy", "ks-lifecycle", "mixed"][cls as usize], if many { "+many-journals" } else { "" });
     base_case("C04", seed, &g, program, class)
 }
 
